@@ -26,8 +26,8 @@ R_S = [
 ]
 X_ALL = [
     X('iround_f', UT, r'inline std::ptrdiff_t iround\(float x\)\s*\{', count=1), X('iround_d', UT, r'inline std::ptrdiff_t iround\(double x\)\s*\{', count=1),
-    X('ifloor_f', UT, r'inline std::ptrdiff_t ifloor\(float x\)\s*\{', count=1, rules=[('R5.floor', r'std::floor\(', 'floorf(', True)]),
-    X('ifloor_d', UT, r'inline std::ptrdiff_t ifloor\(double x\)\s*\{', count=1, rules=[('R5.floor', r'std::floor\(', 'floor(', True)]),
+    X('ifloor_f', UT, r'inline std::ptrdiff_t ifloor\(float x\)\s*\{', count=1, rules=[('R5.floor', r'std::floor\(', 'floorf(', False)]),
+    X('ifloor_d', UT, r'inline std::ptrdiff_t ifloor\(double x\)\s*\{', count=1, rules=[('R5.floor', r'std::floor\(', 'floor(', False)]),
     X('nearest', SA, r'bool sample\(nearest_neighbor_sampler, SrcView const& src, point<F> const& p, DstP& result\)\s*\{', count=1, rules=R_S + [('must', r'ACCUM\(center', 'ACCUM(center', True)]),
     X('bilinear', SA, r'bool sample\(bilinear_sampler, SrcView const& src, point<F> const& p, DstP& result\)\s*\{', count=1, rules=R_S + [('must', r'ACCUM\(loc', 'ACCUM(loc', True)]),
 ]
